@@ -318,18 +318,28 @@ End Transfer.
 
     case = (tag world params)
     world  = (tables commits blocksizes srcdrop)
-      tables     = ((pkv (chunk ...) size) ...)    table i; pkv 0: pk=[0], 1: pk=[0,1]; 3 columns;
+      tables     = ((pkv (chunk ...) size) ...)    table i; 3 columns; variant pkv = column layout + key:
+                                                   0: id,a,b pk=[0]   1: id,a,b pk=[0,1]
+                                                   2: a,id,b pk=[1]   3: a,b,id pk=[2,0]   (layouts 0,0,1,2)
                                                    abstract table id = first index with equal (pkv, chunks)
-      commits    = ((tableidx (parentidx ...) size) ...)   commit i (abstract id i), parents < i
-      blocksizes = ((chunk size) ...)              abstract block id = chunk number
-      srcdrop    = ((tableidx ...) (chunk ...))    table objects / block objects deleted from the source
+      commits    = ((tableidx (parentidx ...) size tz) ...)   commit i (abstract id i), parents < i;
+                                                   tz (author zone, minutes + 2000) is content the model does not look at
+      blocksizes = ((block size) ...)              abstract block id = chunk number + 1000 * layout
+      srcdrop    = ((tableidx ...) (block ...))    table objects / block objects deleted from the source
     tag 0 (honest transfer): params = (tosend tbs commons max dstpre)
       tosend  = (commitidx ...) in send order;  tbs = (tableidx ...);  commons = (commitidx ...)
-      dstpre  = ((commitidx ...) (tableidx ...) (chunk ...))   commits / full tables (blocks, indices,
-                profile) / bare blocks copied to the destination beforehand
+      dstpre  = ((commitidx ...) (tableidx ...) (block ...) [tblobj tblidx prof blkidx stale])
+                commits / full tables (blocks, indices, profile) / bare blocks copied to the destination
+                beforehand, then PER OBJECT KIND: tblobj = (tableidx ...) the table object alone,
+                tblidx / prof = (tableidx ...) the table index / profile alone, blkidx = ((tableidx j) ...)
+                the j-th block index of a table alone, stale = (tableidx ...) table index and profile
+                present but with foreign content
     tag 1 (hostile stream): params = (tosend tbs commons dstpre ops cut)
       the honest sender's object stream, edited by ops, re-framed [cut] objects per packfile
       op = (0 i) drop | (1 i j) swap | (2 i k) tamper with kind k | (3 i) append a copy of object i
+      tamper kinds on a table: 0 first recorded block-index sum replaced, 1 one more column, 2 pk = [7],
+      4 pk = [number of columns] (first out-of-range value), other: undecodable; on a commit: 0 unknown
+      extra parent, other: undecodable; on a block: invalid bytes
     observation = (status recvdone packs final)
       status 0 ok, 1 receiver rejected, 2 sender error, 3 out of fuel
       recvdone = every commit of tosend was stored by this receiver
@@ -339,9 +349,12 @@ End Transfer.
 
 Definition c07_shape (_ : N) : N := 5.    (* every block of the harness has rows of 3 cells *)
 
-Definition pk_of_pkv (v : N) : list N := if v =? 0 then [0] else [0; 1].
+Definition pk_of_pkv (v : N) : list N :=
+  if v =? 0 then [0] else if v =? 1 then [0; 1] else if v =? 2 then [1] else [2; 0].
 Definition pkv_of_pk (pk : list N) : N :=
-  if listN_eqb pk [0] then 0 else if listN_eqb pk [0; 1] then 1 else 9.
+  if listN_eqb pk [0] then 0 else if listN_eqb pk [0; 1] then 1
+  else if listN_eqb pk [1] then 2 else if listN_eqb pk [2; 0] then 3 else 9.
+Definition layout_of_pkv (v : N) : N := if v <? 2 then 0 else if v =? 2 then 1 else 2.
 
 Record wtable := mkWT { wt_pkv : N; wt_chunks : list N; wt_size : N }.
 Record wcommit := mkWC { wc_tbl : N; wc_parents : list N; wc_size : N }.
@@ -365,7 +378,8 @@ Definition canon (wts : list wtable) (i : N) : N :=
 
 Definition table_of (w : wtable) : table :=
   let pk := pk_of_pkv (wt_pkv w) in
-  mkTable 3 pk (map (fun k => (k, reindex pk k)) (wt_chunks w)) 0.
+  let off := 1000 * layout_of_pkv (wt_pkv w) in
+  mkTable 3 pk (map (fun k => (k + off, reindex pk (k + off))) (wt_chunks w)) 0.
 
 Fixpoint numbered {A} (i : N) (l : list A) : list (N * A) :=
   match l with [] => [] | a :: l' => (i, a) :: numbered (i + 1) l' end.
@@ -389,14 +403,24 @@ Definition build_src (wts : list wtable) (wcs : list wcommit) (drop_t drop_b : l
          (flat_map (fun p => map snd (t_blocks (snd p))) tbls)
          (map fst tbls) (map fst tbls).
 
-Definition build_dst (wts : list wtable) (wcs : list wcommit) (pre_c pre_t pre_b : list N) : repo :=
+(* per-kind pre-population: table objects alone, table indices alone, profiles alone,
+   single block indices (table index, position), stale index+profile *)
+Record prekinds := mkPK { pk_to : list N; pk_ti : list N; pk_tp : list N; pk_x : list (N * N); pk_stale : list N }.
+Definition no_prekinds : prekinds := mkPK [] [] [] [] [].
+
+Definition build_dst (wts : list wtable) (wcs : list wcommit) (pre_c pre_t pre_b : list N) (k : prekinds) : repo :=
   let tbls := full_tables wts pre_t in
+  let xs := flat_map (fun p => match nth_error wts (N.to_nat (fst p)) with
+                               | Some w => match nth_error (t_blocks (table_of w)) (N.to_nat (snd p)) with
+                                           | Some bx => [snd bx] | None => [] end
+                               | None => [] end) (pk_x k) in
   mkRepo (flat_map (fun c => match nth_error wcs (N.to_nat c) with
                              | Some w => [(c, commit_of wts w)] | None => [] end) pre_c)
-         tbls
+         (tbls ++ full_tables wts (pk_to k))
          (map (fun b => (b, b)) (flat_map (fun p => tbl_blocks (snd p)) tbls ++ pre_b))
-         (flat_map (fun p => map snd (t_blocks (snd p))) tbls)
-         (map fst tbls) (map fst tbls).
+         (flat_map (fun p => map snd (t_blocks (snd p))) tbls ++ xs)
+         (map fst tbls ++ map (canon wts) (pk_ti k) ++ map (canon wts) (pk_stale k))
+         (map fst tbls ++ map (canon wts) (pk_tp k) ++ map (canon wts) (pk_stale k)).
 
 Definition obj_size (wts : list wtable) (wcs : list wcommit) (bs : list (N * N)) (o : obj) : N :=
   match o with
@@ -454,6 +478,9 @@ Definition tamper (k : N) (o : obj) : obj :=
     else if k =? 2 then
       if listN_eqb (t_pk tc) [7] then o
       else OTable (3000 + t) (mkTable (t_cols tc) [7] (t_blocks tc) (t_rest tc))
+    else if k =? 4 then
+      if listN_eqb (t_pk tc) [t_cols tc] then o
+      else OTable (4000 + t) (mkTable (t_cols tc) [t_cols tc] (t_blocks tc) (t_rest tc))
     else OBad
   | OCommit c cc =>
     if k =? 0 then OCommit (1000 + c) (mkCommit (c_table cc) (c_parents cc ++ [777])) else OBad
@@ -517,7 +544,10 @@ Definition run_C07 (c : tree) : tree :=
                                     | Some wc => [(c, commit_of wts wc)] | None => [] end) ts_idx in
   let tbs := map (canon wts) (d_list d_N (d_nth 1 p)) in
   let commons := d_list d_N (d_nth 2 p) in
-  let mkdst pre := build_dst wts wcs (d_list d_N (d_nth 0 pre)) (d_list d_N (d_nth 1 pre)) (d_list d_N (d_nth 2 pre)) in
+  let mkdst pre := build_dst wts wcs (d_list d_N (d_nth 0 pre)) (d_list d_N (d_nth 1 pre)) (d_list d_N (d_nth 2 pre))
+                     (mkPK (d_list d_N (d_nth 3 pre)) (d_list d_N (d_nth 4 pre)) (d_list d_N (d_nth 5 pre))
+                           (d_list (fun t => (d_N (d_nth 0 t), d_N (d_nth 1 t))) (d_nth 6 pre))
+                           (d_list d_N (d_nth 7 pre))) in
   let out st ps d := Node [Leaf st; t_bool (if st =? 0 then recv_done ts_idx ps d else false); t_packs ps; t_final d] in
   if d_N (d_nth 0 c) =? 0 then
     let max := d_N (d_nth 3 p) in
